@@ -793,7 +793,7 @@ Proof.
   induction f as [|f IH]; intros h v cur b HI HC HF.
   - destruct cur as [k|]; simpl.
     + destruct (HC k eq_refl) as [Hin Hb]. pose proof (cnt_strict k (idx v) Hin). simpl in HF. lia.
-    + exists v, None. split; auto. split; auto. intros k H. discriminate.
+    + exists v, None. split; [auto|]. split; [auto|]. intros k H. discriminate.
   - destruct cur as [k|]; simpl.
     + destruct (HC k eq_refl) as [Hin Hb]. destruct (isnull h v k) eqn:N.
       * assert (Hs : sset (idx v)) by apply HI.
@@ -805,11 +805,11 @@ Proof.
         -- unfold del_entry. cbn [idx]. simpl in HF.
            destruct (first_gt k (idx v)) as [k'|]; simpl in *; [|lia].
            pose proof (cnt_kdel_le k' k (idx v)). lia.
-        -- exists v', c'. split; auto. split; auto. unfold del_entry in B. cbn [idx] in B. simpl.
+        -- exists v', c'. split; [auto|]. split; [|auto]. unfold del_entry in B. cbn [idx] in B. simpl.
            destruct (first_gt k (idx v)) as [k'|]; simpl in *; [|lia].
            pose proof (cnt_kdel_le k' k (idx v)). lia.
-      * exists v, (Some k). split; auto. split; auto. intros k' E. inversion E. subst k'. auto.
-    + exists v, None. split; auto. split; auto. intros k H. discriminate.
+      * exists v, (Some k). split; [auto|]. split; [auto|]. intros k' E. inversion E. subst k'. auto.
+    + exists v, None. split; [auto|]. split; [auto|]. intros k H. discriminate.
 Qed.
 
 Lemma it_next_tot h v k :
@@ -840,4 +840,210 @@ Proof.
   - unfold sfuel. lia.
   - exists v', c'. split; auto. split; [eapply Inv_skip; eauto|]. split; [lia|].
     intros k' E. apply C in E. tauto.
+Qed.
+
+(* visits still ahead of the operand's ConstIterator *)
+Definition orem (w : world) (c2 : citer) : nat :=
+  match c2 with
+  | CS u cur => rem (idx (getv w u)) cur
+  | CD d p => Z.to_nat (Z.of_nat (length d) - p)
+  end.
+Definition Vop (w : world) (t : nat) (c2 : citer) : Prop :=
+  match c2 with
+  | CS u cur => u <> t /\ has w u /\ (forall k, cur = Some k -> In k (idx (getv w u)))
+  | CD _ _ => True
+  end.
+Definition Mj (w : world) (t : nat) (j : joint) : nat := (rem (idx (getv w t)) (j1 j) + orem w (j2 j))%nat.
+
+Lemma has_setv w t u v : has w t -> has (setv w u v) t.
+Proof. unfold has, setv. simpl. rewrite upd_length. auto. Qed.
+Lemma Vop_setv_t w t c2 v : Vop w t c2 -> Vop (setv w t v) t c2 /\ orem (setv w t v) c2 = orem w c2.
+Proof.
+  destruct c2 as [u cur|d p]; simpl; auto. intros (A & B & C).
+  rewrite getv_setv_neq by auto. split; auto. split; auto. split; auto. apply has_setv. auto.
+Qed.
+Lemma Vop_seth w t c2 h : Vop w t c2 -> Vop (seth w h) t c2 /\ orem (seth w h) c2 = orem w c2.
+Proof. destruct c2 as [u cur|d p]; simpl; auto. Qed.
+
+Lemma ci_next_tot w t c2 :
+  WInv w -> Vop w t c2 -> ci_ok c2 = true ->
+  exists w2 c2', ci_next w c2 = Some (w2, c2') /\ WInv w2 /\ Vop w2 t c2' /\
+                 (orem w2 c2' + 1 <= orem w c2)%nat /\ getv w2 t = getv w t /\ hp w2 = hp w /\
+                 (has w t -> has w2 t).
+Proof.
+  intros HI HV Ok. destruct c2 as [u cur|d p].
+  - destruct HV as (A & B & C). destruct cur as [k|]; [|discriminate].
+    cbn [ci_next].
+    destruct (it_next_tot (hp w) (getv w u) k (WInv_getv w u HI) (C k eq_refl)) as (v' & c' & N & I' & Rm & Cu).
+    rewrite N. exists (setv w u v'), (CS u c'). split; auto. split; [apply WInv_setv; auto|].
+    cbn [Vop orem]. rewrite getv_setv_eq by auto. split.
+    { split; auto. split; [apply has_setv; auto|]. intros k' E. apply Cu in E. tauto. }
+    split; [simpl; lia|]. split; [apply getv_setv_neq; auto|]. split; auto. apply has_setv.
+  - cbn [ci_next]. exists w, (CD d (p + 1)). simpl in *. apply Z.ltb_lt in Ok.
+    split; auto. split; auto. split; auto. split; [lia|]. auto.
+Qed.
+Lemma ci_begin_tot w t o :
+  WInv w -> match o with OS u => u <> t /\ has w u | OD _ => True end ->
+  exists w1 c2, ci_begin w o = Some (w1, c2) /\ WInv w1 /\ Vop w1 t c2 /\
+                (orem w1 c2 <= op_len w o)%nat /\ getv w1 t = getv w t /\ hp w1 = hp w /\
+                (has w t -> has w1 t).
+Proof.
+  intros HI Ho. destruct o as [u|d].
+  - destruct Ho as [A B]. cbn [ci_begin].
+    destruct (it_begin_tot (hp w) (getv w u) (WInv_getv w u HI)) as (v' & c' & N & I' & Rm & Cu).
+    rewrite N. exists (setv w u v'), (CS u c'). split; auto. split; [apply WInv_setv; auto|].
+    cbn [Vop orem op_len]. rewrite getv_setv_eq by auto. split.
+    { split; auto. split; [apply has_setv; auto|]. auto. }
+    split; [lia|]. split; [apply getv_setv_neq; auto|]. split; auto. apply has_setv.
+  - cbn [ci_begin]. exists w, (CD d 0). simpl. split; auto. split; auto. split; auto. split; [lia|]. auto.
+Qed.
+
+(* Next() never runs out of fuel, and every visit consumes a key of one of the two cursors *)
+Lemma jn_tot w t j :
+  WInv w -> has w t -> (forall k, j1 j = Some k -> In k (idx (getv w t))) -> Vop w t (j2 j) ->
+  exists w2 j', joint_next w t j = Some (w2, j') /\ WInv w2 /\ has w2 t /\
+                (forall k, j1 j' = Some k -> In k (idx (getv w2 t)) /\ jidx j' <= k) /\
+                Vop w2 t (j2 j') /\
+                (jok j' = true -> (Mj w2 t j' + 1 <= Mj w t j)%nat).
+Proof.
+  intros HI Hh HC HV. destruct j as [c1 c2 ji s1 s2 ok]. cbn [j1 j2] in HC, HV.
+  unfold joint_next, Mj. cbn [j1 j2 jidx js1 js2 jok].
+  set (T := (let '(i0, s1) := match c1 with
+                             | Some k => (k, lookup k (vals (getv w t)))
+                             | None => (ji, None) end in
+             if ci_ok c2 then
+               if (ci_index c2 <? i0) || negb (match c1 with Some _ => true | None => false end)
+               then (ci_index c2, None, ci_get w c2)
+               else if i0 =? ci_index c2 then (i0, s1, ci_get w c2) else (i0, s1, None)
+             else (i0, s1, None))).
+  assert (F : forall i1 s1' s2', T = (i1, s1', s2') ->
+              (s1' <> None -> c1 = Some i1) /\ (s2' <> None -> ci_ok c2 = true) /\
+              (forall k1, c1 = Some k1 -> i1 <= k1)).
+  { intros i1 s1' s2'. unfold T. destruct c1 as [k1|].
+    - destruct (ci_ok c2).
+      + cbn [negb]. rewrite orb_false_r. destruct (ci_index c2 <? k1) eqn:E1.
+        * apply Z.ltb_lt in E1. intro E. inversion E. subst. split; [congruence|]. split; auto.
+          intros k E2. inversion E2. lia.
+        * destruct (k1 =? ci_index c2); intro E; inversion E; subst;
+            (split; [auto|]; split; [auto; congruence|]; intros k E2; inversion E2; lia).
+      + intro E; inversion E; subst.
+        split; [auto|]. split; [congruence|]. intros k E2; inversion E2; lia.
+    - destruct (ci_ok c2).
+      + cbn [negb]. rewrite orb_true_r. intro E. inversion E. subst.
+        split; [congruence|]. split; auto. intros k E2. discriminate.
+      + intro E. inversion E. subst. split; [congruence|]. split; [congruence|]. intros k E2. discriminate. }
+  fold T. destruct T as [[i1 s1'] s2'] eqn:ET. destruct (F i1 s1' s2' eq_refl) as (F1 & F2 & F3). clear F.
+  (* first the receiver's iterator ... *)
+  assert (S1 : exists wa c1',
+            (match s1' with
+             | Some _ => match it_next (hp w) (getv w t) c1 with
+                         | Some (v', c') => Some (setv w t v', c')
+                         | None => None end
+             | None => Some (w, c1) end) = Some (wa, c1') /\
+            WInv wa /\ has wa t /\ hp wa = hp w /\
+            (forall k, c1' = Some k -> In k (idx (getv wa t)) /\ i1 <= k) /\
+            Vop wa t c2 /\ orem wa c2 = orem w c2 /\
+            (rem (idx (getv wa t)) c1' + (match s1' with Some _ => 1 | None => 0 end)
+             <= rem (idx (getv w t)) c1)%nat).
+  { destruct s1' as [l|].
+    - assert (E1 : c1 = Some i1) by (apply F1; congruence). subst c1.
+      destruct (it_next_tot (hp w) (getv w t) i1 (WInv_getv w t HI) (HC i1 eq_refl))
+        as (v' & c' & N & I' & Rm & Cu).
+      rewrite N. exists (setv w t v'), c'. split; auto. split; [apply WInv_setv; auto|].
+      split; [apply has_setv; auto|]. split; auto. rewrite getv_setv_eq by auto.
+      split; [intros k E; apply Cu in E; split; [tauto|lia]|].
+      destruct (Vop_setv_t w t c2 v' HV) as [V1 V2]. split; [exact V1|]. split; [exact V2|]. simpl. lia.
+    - exists w, c1. split; [auto|]. split; [auto|]. split; [auto|]. split; [auto|].
+      split; [intros k E; split; auto|]. split; [auto|]. split; [auto|]. lia. }
+  destruct S1 as (wa & c1' & E1 & Ia & Ha & Hpa & Ca & Va & Oa & Ra). rewrite E1.
+  (* ... then the operand's *)
+  destruct s2' as [x|].
+  - destruct (ci_next_tot wa t c2 Ia Va) as (w2 & c2' & N2 & I2 & V2 & O2 & G2 & H2 & Hh2);
+      [apply F2; congruence|].
+    rewrite N2. eexists. eexists. split; [reflexivity|]. cbn [j1 j2 jidx js1 js2 jok].
+    split; auto. split; auto. rewrite G2. split; auto. split; auto. intros _. lia.
+  - eexists. eexists. split; [reflexivity|]. cbn [j1 j2 jidx js1 js2 jok].
+    split; auto. split; auto. split; auto. split; auto.
+    destruct s1' as [l|]; [intros _; lia|discriminate].
+Qed.
+
+Lemma set_loop_tot t f : forall w j,
+  WInv w -> has w t -> (forall k, j1 j = Some k -> In k (idx (getv w t)) /\ jidx j <= k) ->
+  Vop w t (j2 j) -> (jok j = true -> (Mj w t j + 1 <= f)%nat) ->
+  exists w' b, set_loop f w t j = Some (w', b).
+Proof.
+  induction f as [|f IH]; intros w j HI Hh HC HV HF; simpl; destruct (jok j) eqn:Ok; eauto.
+  - specialize (HF eq_refl). lia.
+  - specialize (HF eq_refl).
+    (* the world after the write: same cursors' keys ahead *)
+    assert (W : forall w1,
+              WInv w1 -> has w1 t -> (forall k, j1 j = Some k -> In k (idx (getv w1 t))) ->
+              Vop w1 t (j2 j) -> Mj w1 t j = Mj w t j ->
+              exists w' b, match joint_next w1 t j with
+                           | None => None
+                           | Some (w2, j') => set_loop f w2 t j' end = Some (w', b)).
+    { intros w1 I1 H1 C1 V1 M1.
+      destruct (jn_tot w1 t j I1 H1 C1 V1) as (w2 & j' & N & I2 & H2 & C2 & V2 & M2).
+      rewrite N. apply IH; auto. intro Ok'. specialize (M2 Ok'). lia. }
+    destruct (js1 j) as [l|].
+    + apply W; auto.
+      * intros k E. apply HC in E. tauto.
+      * apply Vop_seth. auto.
+      * unfold Mj. destruct (Vop_seth w t (j2 j) (hset (hp w) l (jval (js2 j))) HV) as [_ ->]. auto.
+    + destruct (at_ (hp w) (getv w t) (jidx j)) as [[[h' v'] l]|] eqn:A; [|eauto].
+      assert (HIt : Inv (getv w t)) by (apply WInv_getv; auto).
+      assert (Ix : idx v' = idx (getv w t) \/ idx v' = kins (jidx j) (idx (getv w t))).
+      { unfold at_ in A. destruct (in_bounds (getv w t) (jidx j)); [|discriminate].
+        destruct (lookup (jidx j) (vals (getv w t))).
+        - inversion A. subst. auto.
+        - unfold halloc in A. inversion A. subst. auto. }
+      assert (G1 : getv (seth (setv w t v') (hset h' l (jval (js2 j)))) t = v').
+      { change (getv (setv w t v') t = v'). apply getv_setv_eq. auto. }
+      destruct (Vop_setv_t w t (j2 j) v' HV) as [Va Oa].
+      destruct (Vop_seth (setv w t v') t (j2 j) (hset h' l (jval (js2 j))) Va) as [Vb Ob].
+      apply W.
+      * apply WInv_seth, WInv_setv; auto. eapply Inv_at; eauto.
+      * apply (has_setv w t t v'). auto.
+      * intros k E. rewrite G1. apply HC in E. destruct E as [E _].
+        destruct Ix as [->| ->]; auto. apply kins_In. auto.
+      * auto.
+      * unfold Mj. rewrite G1, Ob, Oa. f_equal.
+        destruct (j1 j) as [k|] eqn:J1; simpl; auto.
+        destruct (HC k eq_refl) as [Hin Hle].
+        destruct Ix as [->| ->]; auto.
+        destruct (Z.eq_dec (jidx j) k) as [Eq|Ne].
+        -- rewrite kins_same; auto. apply HIt. rewrite Eq. auto.
+        -- apply cnt_kins. lia.
+Qed.
+
+Lemma set_vec_total w t o :
+  WInv w -> has w t -> operand_ok w (dim (getv w t)) o -> exists w' b, set_vec w t o = Some (w', b).
+Proof.
+  intros HI Ht Hop. unfold set_vec.
+  assert (Core : match o with OS u => u <> t /\ has w u | OD _ => True end ->
+                 exists w' b, match joint_begin w t o with
+                              | None => None
+                              | Some (w1, j) => set_loop (jfuel w t o) w1 t j end = Some (w', b)).
+  { intro Ho. unfold joint_begin.
+    destruct (it_begin_tot (hp w) (getv w t) (WInv_getv w t HI)) as (v' & c1 & N & I' & Rm & Cu).
+    rewrite N.
+    assert (Ho' : match o with OS u => u <> t /\ has (setv w t v') u | OD _ => True end).
+    { destruct o; auto. destruct Ho. split; auto. apply has_setv. auto. }
+    destruct (ci_begin_tot (setv w t v') t o (WInv_setv w t v' HI I') Ho')
+      as (w1 & c2 & N2 & I1 & V1 & O1 & G1 & H1 & Hh1).
+    rewrite N2. rewrite getv_setv_eq in G1 by auto.
+    assert (OL : op_len (setv w t v') o = op_len w o).
+    { destruct o as [u|d]; simpl; auto. destruct Ho. rewrite getv_setv_neq; auto. }
+    destruct (jn_tot w1 t {| j1 := c1; j2 := c2; jidx := -1; js1 := None; js2 := None; jok := false |})
+      as (w2 & j & N3 & I2 & H2 & C2 & V2 & M2); auto.
+    { apply Hh1. apply has_setv. auto. }
+    { cbn [j1]. rewrite G1. auto. }
+    rewrite N3. apply set_loop_tot; auto.
+    intro Ok. specialize (M2 Ok). unfold Mj in M2 at 2. cbn [j1 j2] in M2. rewrite G1 in M2.
+    unfold jfuel. lia. }
+  destruct o as [u|d].
+  - destruct (Nat.eqb t u) eqn:E; [eauto|]. apply Nat.eqb_neq in E.
+    destruct (negb (dim (getv w t) =? dim (getv w u))); [eauto|].
+    apply Core. simpl in Hop. split; [auto|tauto].
+  - destruct (negb (dim (getv w t) =? Z.of_nat (length d))); [eauto|]. apply Core. auto.
 Qed.
